@@ -9,6 +9,8 @@ from ..rules import decide_states
 ID = "C17"
 ANCHORS = 'match.extract_matching_loci,match._extract_and_filter_chrom'.split(",")
 MIN_INSTANCES = 12
+# rule families whose findings in this module are derived by an engine (not by comparing spellings): exempt from the rewrite gate
+SEMANTIC_RULES = {"R-SLICE0"}
 EXPLANATION = (
     "R-COVER: in the nearest-bin spill search of extract_matching_loci both arms (bin i+offset, bin i-offset) are analysed in the "
     "linear-constraint domain: every store index is inside [0, n) and the guards admit the extreme bins 0 and n-1 (a guard that "
